@@ -275,7 +275,7 @@ async fn interp(case: &RcCase) -> Verdict {
     // ---- execution: sequential requests, or all of them in flight at once on clones of the service
     let n = case.requests.len();
     let mut tasks: Vec<usize> = vec![usize::MAX; n];
-    let mut mids: Vec<Option<u64>> = vec![None; n];
+    let mut mids: Vec<Vec<u64>> = vec![vec![]; n];
     // "connected after a success": state writes happen in the poll that observes an inner result,
     // so whenever the most recent inner completion is a success the published state is Connected
     fn state_after_success(
@@ -369,9 +369,10 @@ async fn interp(case: &RcCase) -> Verdict {
             state_after_success(&log, &state, &mut violations);
             let mut guard = 0;
             while sim.state(task) == TaskState::Live {
-                // sample the published state while nothing is running (i.e. during a backoff sleep)
-                if inner.shared.in_flight() == 0 && state.state() == ConnectionState::Connected {
-                    mids[i].get_or_insert(sim::now());
+                // sample the published state while the request is being handled (during a back-off
+                // sleep, and while an attempt is in flight)
+                if state.state() == ConnectionState::Connected {
+                    mids[i].push(sim::now());
                 }
                 crate::vclock::advance_ms(case.step_ms.max(1) - 1);
                 sim.tick().await;
@@ -393,7 +394,7 @@ async fn interp(case: &RcCase) -> Verdict {
             tag: 0x4EC0 + i as u64,
         };
         let task = tasks[i];
-        let mid_sleep_connected = mids[i];
+        let mid_sleep_connected = mids[i].clone();
         let snap = log.snapshot();
         let enters: Vec<(u64, u64)> = snap
             .iter()
@@ -512,7 +513,7 @@ async fn interp(case: &RcCase) -> Verdict {
             Some((_, other)) => violations.push(format!("request {i}: unexpected outcome {other:?}")),
         }
         // state while a reconnectable failure was being handled
-        if let Some(t) = mid_sleep_connected {
+        for t in mid_sleep_connected {
             // only meaningful if a reconnectable failure had been observed before that instant
             let first_fail = (0..nent).find(|&k| reconnectable(outcome_of(k))).and_then(|k| done_t(enters[k].1));
             if let Some(ft) = first_fail {
@@ -524,6 +525,7 @@ async fn interp(case: &RcCase) -> Verdict {
                     violations.push(format!(
                         "request {i}: published state is Connected at t={t} while a reconnectable failure (at t={ft}) is being handled"
                     ));
+                    break;
                 }
             }
         }
@@ -592,7 +594,7 @@ impl Property for C16 {
         r
     }
     fn rule(&self) -> String {
-        "proptest-generated cases: max_attempts 0-5 or unlimited (scripts then end in a success), policy in {none, fixed, exponential, jittered, custom non-monotone}, retry_on_reconnect on/off, predicate on/off, 1-3 sequential requests each with an outcome script (ok / reconnectable / other error, latency 0-10 ms); virtual clock. Oracle (reference reading of the script): inner calls <= max_attempts+1, each with the caller's request; a retry only after an error the predicate accepts, never with the none policy or retry_on_reconnect off; gap before retry k >= the policy's delay (either indexing convention, jitter lower bound); Ok only for the first success with its serial at its completion instant, otherwise an error whose text wraps exactly the last inner error (code and serial); state() Connected after a success and never Connected during a backoff sleep after a reconnectable failure. Non-trivial: at least two retries in one request and a terminal error somewhere in the case; distinct by hash of the case".into()
+        "proptest-generated cases: max_attempts 0-5 or unlimited (scripts then end in a success), policy in {none, fixed, exponential, jittered, custom non-monotone}, retry_on_reconnect on/off, predicate on/off, 1-3 sequential requests each with an outcome script (ok / reconnectable / other error, latency 0-10 ms); virtual clock. Oracle (reference reading of the script): inner calls <= max_attempts+1, each with the caller's request; a retry only after an error the predicate accepts, never with the none policy or retry_on_reconnect off; gap before retry k >= the policy's delay (either indexing convention, jitter lower bound); Ok only for the first success with its serial at its completion instant, otherwise an error whose text wraps exactly the last inner error (code and serial); state() Connected after a success and never Connected at any sampled instant between a reconnectable failure of a request and that request's resolution (back-off sleeps and replayed attempts in flight alike). Non-trivial: at least two retries in one request and a terminal error somewhere in the case; distinct by hash of the case".into()
     }
     fn assumptions(&self) -> Vec<String> {
         vec![
